@@ -10,6 +10,7 @@ from sa.core import rule, AnalysisError
 from sa.pyindex import (get_module, dotted, src, kwarg, calls_in, try_fold,
                         walk_no_nested, all_py_files)
 from sa import flow
+from rules import _record_fields as _RF
 from rules._pytd_schema import (reaching as _reaching, defs_at as _defs_at,
                                 stored_names)
 
@@ -1203,7 +1204,15 @@ EXPLANATION = (
     "tuple-unpacking of a tuple display or of a call to a function of the "
     "same module, then through the matching element of every returned "
     "tuple), so `x = sorted(..); f(x)`, `f(sorted(..))` and `a, b = "
-    "_helper(..)` with `return sorted(..), sorted(..)` are the same; a name "
+    "_helper(..)` with `return sorted(..), sorted(..)` are the same; a field "
+    "read `rec.f` / `rec[i]` of a local bound to the construction of a "
+    "NamedTuple / plain @dataclass of the module (or a tuple display), made "
+    "in the function or in a module-level helper it calls, is the "
+    "constructor argument stored in that field (by position or keyword), "
+    "provided the record is only ever read through its fields; a record of "
+    "any other shape (class with its own __init__, */** arguments, "
+    "defaults, the record passed on or a field changed in place) is an "
+    "ANALYSIS-ERROR; a name "
     "whose object is changed in place (append/extend/sort/item store) after "
     "a definition that reaches the use is not followed (a sorted(..) "
     "definition changed in place afterwards is an ANALYSIS-ERROR); R4.6 every walk over a value that is definitely a "
@@ -2037,6 +2046,71 @@ def _plain_returns(callee):
   return rets
 
 
+def _record_candidates(mod, fn, v, stmt, depth):
+  """What a record-valued expression `v` can be: calls to module-level
+  functions of the module are replaced by what they return (names resolved
+  inside them).  -> [(expression, owner, statement, came-from-a-helper)]"""
+  if depth > 6:
+    raise AnalysisError(f"{fn.name}: definition chain too deep")
+  callee = _local_function(mod, fn, v, stmt)
+  if callee is None:
+    return [(v, fn, stmt, False)]
+  out = []
+  for r in _plain_returns(callee):
+    if r.value is None:
+      raise AnalysisError(f"{callee.name}: bare return where a record is expected")
+    for rv, owner, rst in _value_sources(mod, callee, r.value, r, depth + 1):
+      out.extend((e, o, s_, True)
+                 for e, o, s_, _ in _record_candidates(mod, owner, rv, rst, depth + 1))
+  return out
+
+
+def _record_field_sources(mod, fn, expr, stmt, depth, follow):
+  """`rec.<field>` / `rec[<int>]` where the local `rec` holds a record (see
+  rules/_record_fields.py) built in `fn` or in a module-level helper it
+  calls: the sources of the constructor argument stored in that field.
+  None when `rec` is not such a local (the expression is then judged as it
+  stands, as before); AnalysisError when `rec` comes from a helper / a class
+  of the module but the shape is not the modelled one."""
+  base, selector = _RF.selector_of(expr)
+  defs = _defs_at(_reaching(fn), stmt, base.id)
+  if not defs:
+    return None
+  def recordish(v, owner, st):
+    return _local_function(mod, owner, v, st) is not None or (
+        isinstance(v, ast.Call) and isinstance(v.func, ast.Name)
+        and _RF.record_fields(mod, v.func.id) is not None)
+  srcs = _value_sources(mod, fn, base, stmt, depth + 1)
+  cands = []
+  for v, owner, st in srcs:
+    cands.extend(_record_candidates(mod, owner, v, st, depth + 1))
+  direct_defs = [d.value for d in defs if isinstance(d, ast.Assign)
+                 and len(d.targets) == 1 and isinstance(d.targets[0], ast.Name)]
+  involved = any(h for _, _, _, h in cands) or \
+      any(recordish(v, o, s_) for v, o, s_, _ in cands) or \
+      any(recordish(v, fn, stmt) for v in direct_defs)
+  if not involved:
+    return None
+  out = []
+  for v, owner, st, _ in cands:
+    arg = None
+    if isinstance(v, ast.Call) and isinstance(v.func, ast.Name):
+      if _defs_at(_reaching(owner), st, v.func.id) or v.func.id in {
+          a.arg for a in owner.args.args + owner.args.kwonlyargs + owner.args.posonlyargs}:
+        raise AnalysisError(f"{owner.name}: `{v.func.id}` is rebound locally")
+      arg = _RF.ctor_field(mod, v, selector)
+    elif isinstance(v, ast.Tuple) and isinstance(selector, int):
+      arg = _RF.tuple_item(v, selector)
+    if arg is None:
+      raise AnalysisError(
+          f"{fn.name}: `{src(expr)}` reads a field of a value built as "
+          f"`{src(v)[:80]}`, which is not a NamedTuple/dataclass/tuple "
+          "construction the rule can look into")
+    out.extend(_value_sources(mod, owner, arg, st, depth + 1, follow))
+  _RF.require_field_reads_only(fn, base.id)
+  return out
+
+
 def _value_sources(mod, fn, expr, stmt, depth=0, follow=None):
   """Expressions that `expr` (read in `stmt` of `fn`) evaluates to, following
   local names through their reaching definitions: plain assignments, and
@@ -2050,6 +2124,10 @@ def _value_sources(mod, fn, expr, stmt, depth=0, follow=None):
   if depth > 6:
     raise AnalysisError(f"{fn.name}: definition chain too deep")
   if not isinstance(expr, ast.Name):
+    if _RF.selector_of(expr) is not None:
+      got = _record_field_sources(mod, fn, expr, stmt, depth, follow)
+      if got is not None:
+        return got
     if follow is not None and isinstance(expr, ast.Call) and follow(expr):
       callee = _local_function(mod, fn, expr, stmt)
       if callee is not None:
@@ -3276,3 +3354,6 @@ VARIANTS = [
           "def _sorted_error_names():\n  _ERROR_NAMES = set(get_error_names_set())\n"
           "  _ERROR_NAMES.discard(\"\")\n  return sorted(_ERROR_NAMES)\n")]},
 ]
+
+# dependency lists taken from the fields of a record returned by a helper
+VARIANTS += _RF.deps_record_variants("R4.4")
